@@ -49,13 +49,13 @@ static void *hs_server(void *arg)
 }
 
 static __thread int ones;
+#define ACC(p, l) sm3_update(acc, (const uint8_t *)(p), (l))
+#define ACCI(v) do { int _v = (v); ACC(&_v, sizeof _v); if (_v == 1) ones++; } while (0)
 static void do_op(int kind, uint64_t *st, SM3_CTX *acc, int t)
 {
 	ones = 0;
 	uint8_t buf[4096] = {0}, out[8192] = {0}, key[32], iv[16]; size_t n, outl = 0; int rc = 0;
 	vh_fill(st, key, 32); vh_fill(st, iv, 16); n = (size_t)(vh_rand(st) % 600); vh_fill(st, buf, n);
-	#define ACC(p, l) sm3_update(acc, (const uint8_t *)(p), (l))
-	#define ACCI(v) do { int _v = (v); ACC(&_v, sizeof _v); if (_v == 1) ones++; } while (0)
 	switch (kind) {
 	case 0: { SM3_CTX c; uint8_t d[32]; sm3_init(&c); sm3_update(&c, buf, n / 2); sm3_update(&c, buf + n / 2, n - n / 2); sm3_finish(&c, d); ACC(d, 32);
 		  SM3_HMAC_CTX h; sm3_hmac_init(&h, key, 32); sm3_hmac_update(&h, buf, n); sm3_hmac_finish(&h, d); ACC(d, 32); break; }
@@ -110,17 +110,77 @@ static void do_op(int kind, uint64_t *st, SM3_CTX *acc, int t)
 	}
 }
 
+// ---- streaming workload: every thread owns ONE multi-call object (hash, MAC, KDF, CBC, CTR, GCM encrypt / decrypt, ZUC, base64, SM2 / SM9 signing context); operation k
+// is its k-th call (k = 0: init and a first piece, last k: a last piece and finish, in between: one piece).  Interleaving the calls of different threads' objects is then
+// exactly what a schedule does -- state hidden behind the contexts (a static table keyed by nothing, a shared scratch block) changes somebody's result ----
+#define NSTREAM 10
+static const char *skinds[NSTREAM] = { "st-sm3", "st-hmac", "st-kdf", "st-cbc", "st-ctr", "st-gcmenc", "st-gcmdec", "st-zuc", "st-b64", "st-sm2sign" };
+typedef struct { int fam; uint8_t key[32], iv[16], aad[20], msg[2048]; size_t mlen, off; SM3_CTX sm3; SM3_HMAC_CTX hmac; SM3_KDF_CTX kdf; SM4_CBC_CTX cbc; SM4_CTR_CTX ctr; SM4_GCM_CTX gcm;
+	ZUC_CTX zuc; BASE64_CTX b64; SM2_SIGN_CTX sign; SM2_KEY sk; uint8_t ct[2048 + 64]; size_t ctlen, ctoff; } STREAM;
+static void stream_phase(STREAM *s, int k, int K, uint64_t *st, SM3_CTX *acc)
+{
+	ones = 0; int rc; uint8_t out[4096]; size_t ol = 0; int ilen = 0;
+	if (k == 0) {
+		vh_fill(st, s->key, 32); vh_fill(st, s->iv, 16); vh_fill(st, s->aad, 20); s->mlen = 64 * (size_t)K + (size_t)(vh_rand(st) % 200); vh_fill(st, s->msg, s->mlen); s->off = 0; s->ctoff = 0;
+		switch (s->fam) {
+		case 0: sm3_init(&s->sm3); ACCI(1); break;
+		case 1: sm3_hmac_init(&s->hmac, s->key, 32); ACCI(1); break;
+		case 2: sm3_kdf_init(&s->kdf, 100); ACCI(1); break;
+		case 3: rc = sm4_cbc_encrypt_init(&s->cbc, s->key, s->iv); ACCI(rc); break;
+		case 4: rc = sm4_ctr_encrypt_init(&s->ctr, s->key, s->iv); ACCI(rc); break;
+		case 5: rc = sm4_gcm_encrypt_init(&s->gcm, s->key, 16, s->iv, 12, s->aad, 20, 16); ACCI(rc); break;
+		case 6: { SM4_KEY ek; sm4_set_encrypt_key(&ek, s->key); rc = sm4_gcm_encrypt(&ek, s->iv, 12, s->aad, 20, s->msg, s->mlen, s->ct, 16, s->ct + s->mlen); s->ctlen = s->mlen + 16;    // one-shot, then streamed decryption
+			  if (rc == 1) rc = sm4_gcm_decrypt_init(&s->gcm, s->key, 16, s->iv, 12, s->aad, 20, 16); ACCI(rc); break; }
+		case 7: rc = zuc_encrypt_init(&s->zuc, s->key, s->iv); ACCI(rc); break;
+		case 8: base64_encode_init(&s->b64); ACCI(1); break;
+		default: { uint8_t d[32]; memcpy(d, s->key, 32); d[0] = 0x31; sm2_z256_t z; sm2_z256_from_bytes(z, d); sm2_key_set_private_key(&s->sk, z); rc = sm2_sign_init(&s->sign, &s->sk, SM2_DEFAULT_ID, SM2_DEFAULT_ID_LENGTH); ACCI(rc); break; }
+		}
+	}
+	// one piece of the message (the last call takes whatever is left)
+	size_t left = s->mlen - s->off, n = (k == K - 1) ? left : (left / (size_t)(K - k)) + (size_t)(vh_rand(st) % 7); if (n > left) n = left; const uint8_t *m = s->msg + s->off;
+	switch (s->fam) {
+	case 0: sm3_update(&s->sm3, m, n); ACCI(1); break;
+	case 1: sm3_hmac_update(&s->hmac, m, n); ACCI(1); break;
+	case 2: sm3_kdf_update(&s->kdf, m, n); ACCI(1); break;
+	case 3: rc = sm4_cbc_encrypt_update(&s->cbc, m, n, out, &ol); ACCI(rc); ACC(out, ol); break;
+	case 4: rc = sm4_ctr_encrypt_update(&s->ctr, m, n, out, &ol); ACCI(rc); ACC(out, ol); break;
+	case 5: rc = sm4_gcm_encrypt_update(&s->gcm, m, n, out, &ol); ACCI(rc); ACC(out, ol); break;
+	case 6: { size_t cl = s->ctlen - s->ctoff, cn = (k == K - 1) ? cl : cl / (size_t)(K - k); rc = sm4_gcm_decrypt_update(&s->gcm, s->ct + s->ctoff, cn, out, &ol); s->ctoff += cn; ACCI(rc); ACC(out, ol); break; }
+	case 7: rc = zuc_encrypt_update(&s->zuc, m, n, out, &ol); ACCI(rc); ACC(out, ol); break;
+	case 8: rc = base64_encode_update(&s->b64, m, (int)n, out, &ilen); ACCI(rc); ACC(out, (size_t)ilen); break;
+	default: rc = sm2_sign_update(&s->sign, m, n); ACCI(rc); break;
+	}
+	s->off += n;
+	if (k == K - 1) {
+		switch (s->fam) {
+		case 0: sm3_finish(&s->sm3, out); ACC(out, 32); break;
+		case 1: sm3_hmac_finish(&s->hmac, out); ACC(out, 32); break;
+		case 2: sm3_kdf_finish(&s->kdf, out); ACC(out, 100); break;
+		case 3: rc = sm4_cbc_encrypt_finish(&s->cbc, out, &ol); ACCI(rc); ACC(out, ol); break;
+		case 4: rc = sm4_ctr_encrypt_finish(&s->ctr, out, &ol); ACCI(rc); ACC(out, ol); break;
+		case 5: rc = sm4_gcm_encrypt_finish(&s->gcm, out, &ol); ACCI(rc); ACC(out, ol); break;
+		case 6: rc = sm4_gcm_decrypt_finish(&s->gcm, out, &ol); ACCI(rc); ACC(out, ol); break;           // the genuine tag must be accepted
+		case 7: rc = zuc_encrypt_finish(&s->zuc, out, &ol); ACCI(rc); ACC(out, ol); break;
+		case 8: base64_encode_finish(&s->b64, out, &ilen); ACC(out, (size_t)ilen); break;
+		default: { size_t sl = 0; rc = sm2_sign_finish(&s->sign, out, &sl); ACCI(rc); SM2_VERIFY_CTX vc; rc = sm2_verify_init(&vc, &s->sk, SM2_DEFAULT_ID, SM2_DEFAULT_ID_LENGTH); if (rc == 1) rc = sm2_verify_update(&vc, s->msg, s->mlen);
+			   if (rc == 1) rc = sm2_verify_finish(&vc, out, sl); ACCI(rc); break; }        // signatures are randomised: what is compared is that the stream verifies
+		}
+	}
+}
+
+static int g_stream, g_fam = -1;
 static void *worker(void *arg)
 {
 	TH *th = arg; uint64_t st = th->seed * 1000003ULL + (uint64_t)th->t * 7919 + 1; ent_seed(th->seed * 31 + (uint64_t)th->t); char tag[8]; snprintf(tag, sizeof tag, "T%d", th->t); ent_tag(tag);
 	if (th->mode == 1) pthread_barrier_wait(&bar);
+	STREAM *so = NULL; if (g_stream) { so = calloc(1, sizeof *so); so->fam = g_fam >= 0 ? g_fam % NSTREAM : (int)((th->seed + (uint64_t)th->t * 3) % NSTREAM); }
 	for (int k = 0; k < th->K; k++) {
 		int kind = (int)(vh_rand(&st) % NKIND);
 		if (th->mode == 2) turn_begin(th->t);
 		SM3_CTX acc; sm3_init(&acc); uint8_t d[32];
-		do_op(kind, &st, &acc, th->t);
+		if (so) stream_phase(so, k, th->K, &st, &acc); else do_op(kind, &st, &acc, th->t);
 		sm3_finish(&acc, d);
-		vt_begin("Op"); vt_int("run", th->run); vt_int("t", th->t); vt_int("k", k); vt_str("kind", kinds[kind]); vt_hex("d", d, 16); vt_int("ones", ones); vt_end();
+		vt_begin("Op"); vt_int("run", th->run); vt_int("t", th->t); vt_int("k", k); vt_str("kind", so ? skinds[so->fam] : kinds[kind]); vt_hex("d", d, 16); vt_int("ones", ones); vt_end();
 		if (th->mode == 2) turn_end();
 	}
 	return NULL;
@@ -139,6 +199,7 @@ int main(int argc, char **argv)
 	while (fgets(line, sizeof line, sf)) {
 		KV kv; kv_parse(&kv, line); if (!kv.n) continue;
 		int T = (int)kv_int(&kv, "threads", 2), K = (int)kv_int(&kv, "ops", 4), run = (int)kv_int(&kv, "id", 0); uint64_t seed = (uint64_t)kv_int(&kv, "seed", 1);
+		g_stream = !strcmp(kv_str(&kv, "work", "mixed"), "stream"); g_fam = (int)kv_int(&kv, "fam", -1);      // fam >= 0: every thread's object is of that one kind (with its own key)
 		const char *m = kv_str(&kv, "mode", "seq"); int mode = !strcmp(m, "free") ? 1 : !strcmp(m, "sched") ? 2 : 0;
 		static long sc[8192]; nsched = kv_ints(&kv, "sched", sc, 8192); sched = malloc(sizeof(int) * (nsched + 1)); for (int i = 0; i < nsched; i++) sched[i] = (int)sc[i]; spos = 0;
 		vt_begin("Run"); vt_int("run", run); vt_str("mode", m); vt_int("threads", T); vt_int("ops", K); vt_int("seed", (long)seed); vt_end();
